@@ -71,6 +71,8 @@ type Exec struct {
 	nameTypes     map[string]types.Type
 	kindUsed      bool
 	inSpec        int
+	strTheory     bool
+	strLits       map[string]string
 	sweepTags     []string
 	tidsUsed      map[int]bool
 	entryState    *State
@@ -85,6 +87,10 @@ func NewExec(p *Prog, fn *ssa.Function) *Exec {
 	if x.con != nil && x.con.Mode == "bv" {
 		x.bv = true
 	}
+	if x.con != nil && x.con.Strings {
+		x.strTheory = true
+	}
+	x.strLits = map[string]string{}
 	return x
 }
 
@@ -92,6 +98,10 @@ func (x *Exec) note(s string) { x.notes[s]++ }
 
 func (x *Exec) addFactRaw(f *Term) {
 	if isTrue(f) {
+		return
+	}
+	if f.hasBound {
+		// side facts about terms under a quantifier (e.g. addresses computed from a bound variable) cannot be stated globally
 		return
 	}
 	x.facts = append(x.facts, f)
@@ -158,14 +168,34 @@ func (x *Exec) Run() (err error) {
 			err = fmt.Errorf("engine: %v (at %s)", r, x.posStr(x.curPos))
 		}
 	}()
+	if x.con != nil && x.con.CaseParam != "" {
+		for _, n := range x.con.CaseLens {
+			x.runOnce(fmt.Sprintf("len(%s)=%d", x.con.CaseParam, n), x.con.CaseParam, n)
+		}
+		return nil
+	}
+	x.runOnce("", "", 0)
+	return nil
+}
+
+func (x *Exec) runOnce(tag, caseParam string, caseLen int) {
 	fn := x.fn
 	st := x.newEntryState()
-	fr := &Frame{fn: fn, con: x.con, lf: x.prog.LoopsOf(fn)}
+	fr := &Frame{fn: fn, con: x.con, lf: x.prog.LoopsOf(fn), tag: tag}
 	// parameters
 	for _, p := range fn.Params {
 		v := x.fresh("p$"+p.Name(), p.Type())
+		if caseParam != "" && p.Name() == caseParam {
+			sl := asTerm(v)
+			v = x.mkSlice(x.sArr(sl), x.GoInt(int64(caseLen)), x.sCap(sl))
+			x.addFactRaw(x.iLe(x.GoInt(int64(caseLen)), x.sCap(sl)))
+			if caseLen > 0 {
+				x.addFactRaw(x.tt.Gt(x.sArr(sl), x.tt.IntLit(0)))
+			}
+		}
 		st.regs[p] = v
 		st.names[p.Name()] = v
+		x.nameTypes[p.Name()] = p.Type()
 		fr.args = append(fr.args, v)
 		x.assumeExisting(st, v, p.Type())
 	}
@@ -191,7 +221,6 @@ func (x *Exec) Run() (err error) {
 	}
 	x.runBody(fr, st)
 	x.finish(fr)
-	return nil
 }
 
 // assumeExisting: pointers passed in refer to objects that exist already.
@@ -321,6 +350,14 @@ func (x *Exec) enterBlock(fr *Frame, b *ssa.BasicBlock, ins []edge) *State {
 				s.regs[p] = vals[i]
 				if p.Comment != "" {
 					s.names[p.Comment] = vals[i]
+					x.nameTypes[p.Comment] = p.Type()
+					if p.Comment == "rangeindex" {
+						if hl := fr.lf.ByHeader[b]; hl != nil {
+							nm := fmt.Sprintf("idx%d", hl.Ordinal)
+							s.names[nm] = vals[i]
+							x.nameTypes[nm] = p.Type()
+						}
+					}
 				}
 			}
 		}
@@ -555,6 +592,7 @@ func (x *Exec) runLoopInv(fr *Frame, L *Loop, ins []edge, spec *LoopSpec) []edge
 	}
 	// 3. havoc
 	st := pre.clone()
+	x.curPC = st.pc
 	whole := map[string]bool{}
 	points := map[string][]*Term{}
 	for _, w := range rec.writes {
@@ -610,11 +648,69 @@ func (x *Exec) runLoopInv(fr *Frame, L *Loop, ins []edge, spec *LoopSpec) []edge
 		st.regs[p] = v
 		if p.Comment != "" {
 			st.names[p.Comment] = v
+			x.nameTypes[p.Comment] = p.Type()
+			if p.Comment == "rangeindex" {
+				st.names[fmt.Sprintf("idx%d", L.Ordinal)] = v
+				x.nameTypes[fmt.Sprintf("idx%d", L.Ordinal)] = p.Type()
+			}
 		}
 	}
 	st.clk = x.advanceClk(st)
+	// 3b. loop frame inherited from the function's modifies clause
+	type lf struct {
+		name     string
+		pre, hdr *Term
+	}
+	var lframes []lf
+	var allowedAt func(name string, p *Term) []*Term
+	if fr.depth == 0 && fr.con != nil && fr.con.HasModifies && !fr.con.ModAll {
+		env0 := x.contractEnv(fr, fr.entry, fr.entry, nil)
+		allowed := map[string][]*Term{}
+		wholeOK := map[string]bool{}
+		x.inSpec++
+		for _, m := range fr.con.Modifies {
+			for _, t := range env0.lvalueTargets(m) {
+				if t.whole {
+					wholeOK[t.heap] = true
+				} else {
+					allowed[t.heap] = append(allowed[t.heap], t.idx)
+				}
+			}
+		}
+		x.inSpec--
+		allowedAt = func(name string, p *Term) []*Term {
+			var out []*Term
+			for _, a := range allowed[name] {
+				out = append(out, tt.Eq(p, a))
+			}
+			out = append(out, tt.Ge(tt.UF("birth$", "Int", p), fr.entry.clk))
+			return out
+		}
+		for _, n := range hnames {
+			if !whole[n] || wholeOK[n] || strings.HasPrefix(n, "L$") || strings.HasPrefix(n, "I$") {
+				continue
+			}
+			srt := x.heapSorts[n]
+			if is, _ := splitArraySort(srt); is != "Int" {
+				continue
+			}
+			preH := x.heap(pre, n, srt)
+			hdrH := st.heaps[n]
+			p := tt.Bound("p", "Int")
+			x.addFactRaw(tt.Implies(st.pc, tt.Forall([]*Term{p}, tt.Or(append(allowedAt(n, p), tt.Eq(tt.Select(hdrH, p), tt.Select(preH, p)))...), []*Term{tt.Select(hdrH, p)})))
+			lframes = append(lframes, lf{n, preH, hdrH})
+		}
+	}
 	// 4. assume invariants
 	x.curPC = st.pc
+	for _, p := range phis {
+		if p.Comment == "rangeindex" {
+			// trivially inductive: starts at -1 and is only incremented
+			if c, ok := p.Edges[0].(*ssa.Const); ok && c.Value != nil && c.Int64() == -1 {
+				x.addFact(x.iLe(x.GoInt(-1), asTerm(st.regs[p])))
+			}
+		}
+	}
 	if spec != nil {
 		for _, c := range spec.Invariants {
 			env := x.contractEnv(fr, st, fr.entry, nil)
@@ -632,6 +728,18 @@ func (x *Exec) runLoopInv(fr *Frame, L *Loop, ins []edge, spec *LoopSpec) []edge
 				env := x.contractEnv(fr, bs, fr.entry, nil)
 				g := x.evalBool(env, c.Expr)
 				x.oblige(fr, bs, "inv-preserved", fmt.Sprintf("%s:%d", lname, c.Ord), c.Tags, g, c.Text)
+			}
+		}
+		if bs != nil {
+			x.curPC = bs.pc
+			for _, f := range lframes {
+				cur := x.heap(bs, f.name, x.heapSorts[f.name])
+				if cur == f.hdr {
+					continue
+				}
+				p := tt.Bound("p", "Int")
+				g := tt.Forall([]*Term{p}, tt.Or(append(allowedAt(f.name, p), tt.Eq(tt.Select(cur, p), tt.Select(f.hdr, p)))...))
+				x.oblige(fr, bs, "loop-frame", lname+":"+f.name, fr.con.frameTags(), g, "loop body writes only declared locations of "+f.name)
 			}
 		}
 	}
